@@ -150,7 +150,12 @@ def _occurrences(containers, dom, mapping_of):
         for x in items:
             add(x)
 
+    visited = set()
+
     def walk(c, mapping):
+        if id(c) in visited:        # a node shared by two live containers
+            return
+        visited.add(id(c))
         st = c.__getstate__()
         if st is None:
             return
@@ -191,8 +196,15 @@ def _do(plan, dom, c, live):
         if mapping:
             ks = [(k, dom.val(0)) for k in ks]
         arg = iter(ks) if op[2] == "gen" else ks
+        from . import twin
         try:
-            new = dom.cls(kind, impl)(arg)
+            if twin.PRECALL is not None:
+                twin.PRECALL()
+            try:
+                new = dom.cls(kind, impl)(arg)
+            finally:
+                if twin.POSTCALL is not None:
+                    twin.POSTCALL()
             live.append((new, mapping))
             return ("ok", ops.listing(new, mapping))
         except Exception as e:
@@ -209,9 +221,17 @@ def _do(plan, dom, c, live):
             st = (tuple(items),)
             return ((st,),) if is_tree(kind) else st
         from BTrees.Interfaces import BTreesConflictError
+        from . import twin
+        s1, s2, s3 = state(op[1]), state(op[2]), state(op[3])
+        inst = dom.cls(kind, impl)()
         try:
-            r = dom.cls(kind, impl)()._p_resolveConflict(
-                state(op[1]), state(op[2]), state(op[3]))
+            if twin.PRECALL is not None:
+                twin.PRECALL()
+            try:
+                r = inst._p_resolveConflict(s1, s2, s3)
+            finally:
+                if twin.POSTCALL is not None:
+                    twin.POSTCALL()
             return ("ok", "merged")
         except BTreesConflictError:
             return ("ok", "conflict")
@@ -224,8 +244,8 @@ def _plain(lst, dom, mapping):
     """listing without references to the key/value objects (the reference
     ledger must not see the harness's own references)"""
     if mapping:
-        return [(dom.kid(k), dom.vid(v)) for k, v in lst]
-    return [dom.kid(k) for k in lst]
+        return [(dom.pkid(k), dom.pvid(v)) for k, v in lst]
+    return [dom.pkid(k) for k in lst]
 
 
 def _raise():
@@ -313,7 +333,7 @@ def _one(plan, dom, cfg, ctx, n, ncmp, L0, L1, baseline, tracked, h, base):
                                 op, n, ncmp, v.detail))
     extra = None
     if op[0] == "update":
-        extra = set((dom.kid(ops.K(dom, kk)), dom.vid(ops.V(dom, vv)))
+        extra = set((dom.pkid(ops.K(dom, kk)), dom.pvid(ops.V(dom, vv)))
                     for kk, vv in op[1])
     verdict = _contents_verdict(op, L0, L1, got, mapping, extra)
     if opn in READONLY and verdict != "old" and opn != "ctor":
@@ -342,10 +362,10 @@ def _one(plan, dom, cfg, ctx, n, ncmp, L0, L1, baseline, tracked, h, base):
                         baseline[id(o)], occ.get(id(o), 0)))
     # follow-up workload against a model seeded from the contents
     model = ops.Model(dom, kind)
-    kidx = {dom.kid(k): i for i, k in enumerate(dom.keys)}
+    kidx = {dom.pkid(k): i for i, k in enumerate(dom.keys)}
     vidx = {}
     for j, v in enumerate(dom.vals):
-        vidx.setdefault(dom.vid(v), j)
+        vidx.setdefault(dom.pvid(v), j)
     for e in got:
         k = e[0] if mapping else e
         model.d[kidx[k]] = vidx[e[1]] if mapping else True
